@@ -165,7 +165,7 @@ func TestPrefixes(t *testing.T) {
 func TestGeneratedProgramPrefixes(t *testing.T) {
 	harness.Check(t, "program-prefixes", 800, 60000, func(rt *rapid.T) {
 		v := rapid.SampledFrom(versions()).Draw(rt, "version")
-		c := progs.Draw(rt, v, progs.Options(v), 1, 2)
+		c := progs.Draw(rt, v, progs.StructuralOptions(v), 1, 2)
 		src := c.G.Render(c.Root, progs.Policy(rt, phpgen.PolicyFull, nil)).Src
 		if len(src) > 600 {
 			src = src[:600]
@@ -210,7 +210,7 @@ func TestMutatedPrograms(t *testing.T) {
 	harness.Check(t, "mutated-programs", 40000, 1500000, func(rt *rapid.T) {
 		v := rapid.SampledFrom(versions()).Draw(rt, "version")
 		cb := rapid.Bool().Draw(rt, "cb")
-		c := progs.Draw(rt, v, progs.Options(v), 1, 3)
+		c := progs.Draw(rt, v, progs.StructuralOptions(v), 1, 3)
 		c.G.Render(c.Root, progs.Policy(rt, phpgen.PolicySpace, nil))
 		toks := astx.FlatTokens(c.Root)
 		var words [][]byte
@@ -265,7 +265,7 @@ func TestMutatedProgramBytes(t *testing.T) {
 	harness.Check(t, "mutated-program-bytes", 40000, 1500000, func(rt *rapid.T) {
 		v := rapid.SampledFrom(versions()).Draw(rt, "version")
 		cb := rapid.Bool().Draw(rt, "cb")
-		c := progs.Draw(rt, v, progs.Options(v), 1, 3)
+		c := progs.Draw(rt, v, progs.StructuralOptions(v), 1, 3)
 		src := c.G.Render(c.Root, progs.Policy(rt, phpgen.PolicyFull, nil)).Src
 		src = inputs.Mutate(rt, src, 3)
 		harness.Class("src=mutated-program-bytes")
